@@ -8,6 +8,7 @@ import (
 	"time"
 
 	"bufio"
+	"encoding/binary"
 	"io"
 	"io/ioutil"
 	"sync"
@@ -25,7 +26,10 @@ type Connection struct {
 	context    Context
 
 	// Used to buffer reads
-	readBuffer io.Reader
+	readBuffer *bytes.Buffer
+
+	// Buffers encrypted bytes read from the connection across reads
+	buffered *bufio.Reader
 
 	// Serializes encrypt-and-write, so that frames are written in the order of their nonces
 	writeMutex sync.Mutex
@@ -70,29 +74,41 @@ func (con *Connection) EncryptedWrite(b []byte) (int, error) {
 // DecryptedRead reads and decrypts bytes from the connection.
 // The method returns the number of read bytes and an error when reading failed.
 func (con *Connection) DecryptedRead(b []byte) (int, error) {
-	if con.readBuffer == nil {
-		buffered := bufio.NewReader(con.connection)
-		decrypted, err := con.getDecrypter().Decrypt(buffered)
+	// Decrypt the next packet when all decrypted bytes are consumed; packets without data are skipped
+	for con.readBuffer == nil || con.readBuffer.Len() == 0 {
+		if con.buffered == nil {
+			con.buffered = bufio.NewReaderSize(con.connection, 2+0xFFFF+16)
+		}
+
+		// Wait until a whole packet is buffered before consuming any of it
+		var size int
+		header, err := con.buffered.Peek(2)
+		if err == nil {
+			size = 2 + int(binary.LittleEndian.Uint16(header)) + 16
+			_, err = con.buffered.Peek(size)
+		}
 		if err != nil {
 			if neterr, ok := err.(net.Error); ok && neterr.Timeout() {
 				// Ignore timeout error #77
 			} else {
-				log.Debug.Println("Decryption failed:", err)
-				err = con.connection.Close()
+				log.Debug.Println("Read failed:", err)
+				con.connection.Close()
 			}
 			return 0, err
 		}
 
-		con.readBuffer = decrypted
+		decrypted, err := con.getDecrypter().Decrypt(io.LimitReader(con.buffered, int64(size)))
+		if err != nil {
+			log.Debug.Println("Decryption failed:", err)
+			err = con.connection.Close()
+			return 0, err
+		}
+
+		con.readBuffer = new(bytes.Buffer)
+		con.readBuffer.ReadFrom(decrypted)
 	}
 
-	n, err := con.readBuffer.Read(b)
-
-	if n < len(b) || err == io.EOF {
-		con.readBuffer = nil
-	}
-
-	return n, err
+	return con.readBuffer.Read(b)
 }
 
 // Write writes bytes to the connection.
